@@ -6,6 +6,9 @@ CONSTANTS
   FirstT = 0
   MaxT = 5
   Kinds = {"f", "sf"}
+  RunGaps = {}
+  RunLens = {}
+  MaxRuns = 0
   Sels <- SelsBoth
   Offs = {0}
   Ats <- AtsNone
